@@ -100,6 +100,27 @@ def run(ck):
             rets = [x for x in (hb.elems if hb else []) if x["k"] == "return"]
             ok = derived and bool(rets) and (rets[0].get("t") or "").strip() == rv
             detail = "result '%s' -> '%s' tested against nullptr at line %s; match returns '%s'" % (rv, routevar, t.get("l"), rets[0].get("t") if rets else None)
+        elif t.get("k") == "if" and not t.get("cmp") and rv and ("v:" + rv) in (t.get("refs") or []):
+            # the test is a predicate helper over the result: `if (matched(result))` with `return std::get<0>(r) != nullptr;`
+            import re as _re
+            pol = None
+            for r_ in (t.get("leafrefs") or t.get("refs") or []):
+                if not r_.startswith("c:"):
+                    continue
+                for g_ in prog.by_base.get(strip_tmpl(r_[2:]), []):
+                    rs_ = [x for x in g_.events("return")]
+                    if len(rs_) == 1:
+                        m_ = _re.search(r"get<0>\(\s*\w+\s*\)\s*(!=|==)\s*nullptr", rs_[0].get("t") or "") or _re.search(r"nullptr\s*(!=|==)\s*(?:std::)?get<0>", rs_[0].get("t") or "")
+                        if m_:
+                            pol = (m_.group(1) == "!=")
+            if pol is None:
+                raise AnalysisBroken("C10-R1: the test after the recursive lookup at %s is `%s`, a predicate whose meaning is not modelled" % (e.loc, t.get("cond")))
+            truth_edge = 1 if t.get("neg") else 0
+            hit = cur.succs[truth_edge if pol else 1 - truth_edge]
+            hb = f.blocks.get(hit)
+            rets = [x for x in (hb.elems if hb else []) if x["k"] == "return"]
+            ok = bool(rets) and (rets[0].get("t") or "").strip() == rv
+            detail = "result '%s' tested by `%s` at line %s; match returns '%s'" % (rv, t.get("cond"), t.get("l"), rets[0].get("t") if rets else None)
         ck.ob("C10-R1", "immediate-return:lookup#%d" % i, ok, e.loc, f, detail)
 
     # ---------------- R2 ----------------
@@ -313,6 +334,9 @@ def run(ck):
     ck.require(len(pb_) == 1, "supportedMethods.push_back sites: %d" % len(pb_))
     bf, e = pb_[0]
     ok_skip = ok_match = False
+    # values that are the request's method: the call itself, a local or an expanded helper's parameter initialised from it
+    MREF = "c:Pistache::Http::Request::method"
+    mvars = {x.get("var") for x in bf.events(("decl", "bind")) if x.get("var") and (MREF in (x.get("refs") or []) or "method()" in ((x.get("init") or {}).get("t") or x.get("t") or ""))}
     for b in bf.blocks.values():
         t_ = b.term
         if not t_ or len(b.succs) != 2:
@@ -324,7 +348,9 @@ def run(ck):
                 tt_ = r_[3]
                 if r_[1] != "!=":
                     continue
-                if "c:" + "Pistache::Http::Request::method" in (tt_.get("leafrefs") or tt_.get("refs") or []):
+                trefs_ = (tt_.get("leafrefs") or tt_.get("refs") or [])
+                if MREF in trefs_ or any(r2_.startswith("v:") and r2_[2:].split("@")[0] in {v_.split("@")[0] for v_ in mvars} for r2_ in trefs_) \
+                        or "req.method()" in re.sub(r"\s+", "", tt_.get("cond") if isinstance(tt_.get("cond"), str) else " ".join(tt_.get("cond") or [])):
                     ok_skip = True
                 if tt_.get("rconst") == "nullptr" or "nullptr" in ((r_[2].get("t") or "") + (r_[0].get("t") or "")):
                     ok_match = True
@@ -435,8 +461,11 @@ def run(ck):
         ck.ob("C10-R4", "sanitize:every-path-normalises", True, sr.loc, sr, "every path of sanitizeResource goes through the duplicate-slash replacement")
     else:
         # the searches that guard the way round
+        from .. import tables as _tables
         srch = [e for e in sr.events("call") if re.match(r"^std::basic_string(_view)?::find$", strip_tmpl(e.get("callee") or "")) and
-                any(isinstance(a.get("const"), str) and a["const"] in ("s://",) for a in (e.get("args") or []))]
+                any(_tables.arg_literal(prog, a) == "//" or ((a.get("root") or a.get("v")) and
+                    any((v_.get("name") or "").rsplit("::", 1)[-1] == (a.get("root") or a.get("v")) and re.sub(r"\s+", "", v_.get("init") or "") == '"//"' for v_ in prog.vars))
+                    for a in (e.get("args") or [])[:1])]
         if not srch:
             raise AnalysisBroken("sanitizeResource has a path that does not normalise duplicate slashes and no search for \"//\" that guards it: shape not modelled")
         starts = []
